@@ -7,12 +7,12 @@ CRATE = "c06"
 COQ_IMPORTS = "From SV Require Import Model.IndexFiles."
 READY = True
 ENV = {"TMPDIR": "/dev/shm"} if os.path.isdir("/dev/shm") and os.access("/dev/shm", os.W_OK) else {}
-XCHECK = 25
-RULE = ("cases = (history, sealed segment, index file, file state): a generated history (cstore generator, rollover-heavy, with crashes of the live segment and reopens) runs on a REAL "
+XCHECK = 12
+RULE = ("cases = (history, sealed segment, index file, file state): a generated history (1-2 buckets, 2-4 partition keys, 1-4 events per transaction, payloads 0..45 KB so that a 128 KiB segment is sealed every few appends, now and then a reopen or a crash tearing the live segment; executed by cstore's executor) runs on a REAL "
         "Database and is shut down cleanly; then for a sealed segment one of index.eidx / partition.pidx / stream.sidx is deleted, emptied, cut to a proper prefix (structural cut points: "
         "inside the magic, the counts, the MPHF, header-only, inside / at the end of the records array, inside the values, total-1, every 1 KiB, plus random lengths) or left complete; "
         "the database is reopened and every committed event of that segment is looked up by id, by a stream scan and by a partition scan (events of the other segments by id). "
-        "quick: 12 file states per history, thorough: 60, until the time budget (70 s / 14 min). non-trivial = the file was damaged.")
+        "quick: 12 file states per history, thorough: 60, until the time budget (55 s / 14 min). non-trivial = the file was damaged.")
 ASSUMPTIONS = [
     "Model/IndexFiles.v is hand-written from bucket/event_index.rs, partition_index/{open,closed}.rs, stream_index/{open,closed}.rs and database.rs DatabaseBuilder::open; tie = this differential run",
     "file contents are abstract: a complete index file holds the writer's entry list, a damaged one is described by its length against the file layout (recorded from the real file); MPHF and bloom filter internals are not modelled",
@@ -73,7 +73,7 @@ def coq_goal(c, e):
     mine = f"(mkLay {h} {r} {t}) {st}"
     files = {"e": f"mkFiles {mine} {full} {full}", "p": f"mkFiles {full} {mine} {full}", "s": f"mkFiles {full} {full} {mine}"}[f["file"]]
     return (f"let recs := [{'; '.join(rl)}] in let r := open_sealed (mkSeg recs (hydrate_from recs 0)) ({files}) in "
-            f"(count (find_by_id r) (seg_committed recs), count (find_by_stream r) (seg_committed recs), count (find_by_partition r) (seg_committed recs), length (seg_committed recs)) "
+            f"(count (find_by_id r) (seg_committed recs), count (find_by_stream r) (seg_committed recs), count (find_by_partition r) (seg_committed recs), List.length (seg_committed recs)) "
             f"= ({m.group(1)}%nat, {m.group(3)}%nat, {m.group(4)}%nat, {m.group(2)}%nat)")
 def distribution(pairs):
     d = {}
